@@ -88,6 +88,25 @@ async def add_key(backend, key, password, new_password, shared, settings=None, c
 
 # -- I5: time ---------------------------------------------------------------------------------
 
+async def list_names(backend, prefix=''):
+    """Every name the backend lists under the prefix, through its public list_files only (plain or async generator)."""
+    import asyncio
+    import inspect
+    if inspect.isasyncgenfunction(backend.list_files):
+        return [n async for n in backend.list_files(prefix)]
+    res = await asyncio.get_running_loop().run_in_executor(None, lambda: list(backend.list_files(prefix)))
+    return res
+
+
+async def fetch(backend, name):
+    """One object's bytes through the backend's public download (plain or coroutine)."""
+    import asyncio
+    import inspect
+    if inspect.iscoroutinefunction(backend.download):
+        return bytes(await backend.download(name))
+    return bytes(await asyncio.get_running_loop().run_in_executor(None, backend.download, name))
+
+
 class Clock:
     """Settable utcnow() for replicat.repository (snapshot timestamps)."""
 
